@@ -74,7 +74,10 @@ impl Out {
 }
 
 pub fn catch<T>(f: impl FnOnce() -> T + std::panic::UnwindSafe) -> Result<T, String> {
-    std::panic::catch_unwind(f).map_err(|e| {
+    IN_CATCH.with(|c| *c.borrow_mut() += 1);
+    let r = std::panic::catch_unwind(f);
+    IN_CATCH.with(|c| *c.borrow_mut() -= 1);
+    r.map_err(|e| {
         if let Some(s) = e.downcast_ref::<&str>() {
             s.to_string()
         } else if let Some(s) = e.downcast_ref::<String>() {
@@ -83,4 +86,43 @@ pub fn catch<T>(f: impl FnOnce() -> T + std::panic::UnwindSafe) -> Result<T, Str
             "panic".to_string()
         }
     })
+}
+
+
+// ---------------------------------------------------------------------------------------------------------------
+// A panic of the implementation OUTSIDE a `catch` is not an infrastructure failure: the stage notes the input it hands to
+// the compiler, the panic hook reports it, and the driver turns the report into a VIOLATION with that input as replay.
+thread_local! {
+    static LAST_INPUT: std::cell::RefCell<String> = std::cell::RefCell::new(String::new());
+}
+
+pub fn note_input(src: &str) {
+    LAST_INPUT.with(|c| {
+        let mut b = c.borrow_mut();
+        b.clear();
+        b.push_str(src);
+    });
+}
+
+pub fn install_panic_reporter() {
+    std::panic::set_hook(Box::new(|info| {
+        let inside_catch = IN_CATCH.with(|c| *c.borrow() > 0);
+        if inside_catch {
+            return;
+        }
+        let msg = if let Some(s) = info.payload().downcast_ref::<&str>() {
+            s.to_string()
+        } else if let Some(s) = info.payload().downcast_ref::<String>() {
+            s.clone()
+        } else {
+            "panic".to_string()
+        };
+        let loc = info.location().map(|l| format!("{}:{}", l.file(), l.line())).unwrap_or_default();
+        let input = LAST_INPUT.with(|c| c.borrow().clone());
+        eprintln!("IMPL-PANIC\t{}\t{}\t{}", enc(&input), loc, msg.replace('\n', " "));
+    }));
+}
+
+thread_local! {
+    static IN_CATCH: std::cell::RefCell<u32> = std::cell::RefCell::new(0);
 }
